@@ -647,9 +647,20 @@ def stat_case(ctx, spec, items, n, seed):
     return checks
 
 
+CANON_SPEC = {'seed': 12, 'd': 3, 'kind': 'str', 'labels': ['b', 'c', 'a'], 'dists': ['gaussian', 'gaussian', 'gaussian'],
+              'nrows': 200}
+
+
 def search(ctx, deep):
     rng = ctx.rng('search')
     checks = 0
+    # canonical witnesses first (independent of VERIF_SEED): training order [b, c, a]
+    model, df = build(CANON_SPEC)
+    va, vc_ = float(np.quantile(df['a'], 0.9)), float(np.quantile(df['c'], 0.2))
+    for it, container, in_order in [([('c', vc_), ('a', va)], 'dict', True), ([('a', va), ('c', vc_)], 'dict', False),
+                                    ([('c', vc_), ('a', va)], 'series', True), ([('b', float(df['b'].max()) + 1.0)], 'series', True)]:
+        ctx.count('search:canonical')
+        checks += oracle_case(ctx, CANON_SPEC, it, container, 3, 7, in_order)
     n_models = 16 if deep else 4
     specs = [make_spec(rng, d=3, kind='str')] + [make_spec(rng) for _ in range(n_models - 1)]
     ncases = 0
